@@ -7,12 +7,19 @@
 #include "verif.h"
 #include <unistd.h>
 static int g_pagesize_calls; static int g_pagesize[3];
-extern "C" int getpagesize(void) noexcept { int i = g_pagesize_calls < 2 ? g_pagesize_calls : 2; g_pagesize_calls++; return g_pagesize[i]; }
+static bool g_arm_inner, g_inner_done; static uint32_t g_inner_page_size, g_inner_granularity;
+static void inner_caller();
+extern "C" int getpagesize(void) noexcept {
+  int i = g_pagesize_calls < 2 ? g_pagesize_calls : 2; g_pagesize_calls++;
+  if (g_arm_inner && !g_inner_done) { g_inner_done = true; inner_caller(); }   // a second thread arrives while the first one is detecting
+  return g_pagesize[i];
+}
 #include <asmjit/core/virtmem.cpp>
 using namespace asmjit;
+static void inner_caller() { VirtMem::Info in = VirtMem::info(); g_inner_page_size = in.page_size; g_inner_granularity = in.page_granularity; }
 
 HARNESS h_vm_info_idempotent() {
-  g_pagesize_calls = 0;
+  g_pagesize_calls = 0; g_arm_inner = false;
   for (int i = 0; i < 3; i++) g_pagesize[i] = 1 << (12 + (nondet_u8() & 7));
   VirtMem::Info a = VirtMem::info();
   int calls_after_first = g_pagesize_calls;
@@ -23,4 +30,17 @@ HARNESS h_vm_info_idempotent() {
   V_ASSERT(g_pagesize_calls == calls_after_first, "VirtMem::info: nothing is recomputed once the flag is set");
   V_ASSERT(a.page_granularity >= 65536 && a.page_granularity >= a.page_size && a.page_size != 0, "VirtMem::info: granularity covers the page size");
   V_WITNESS("vm-info");
+}
+
+// the race modelled sequentially: the getpagesize stub of the first caller calls VirtMem::info() itself once (a second
+// thread arriving mid-detection, OS answer stable): it gets the fully initialised value, the same as everybody afterwards
+HARNESS h_vm_info_race() {
+  g_pagesize_calls = 0; g_arm_inner = true; g_inner_done = false;
+  int ps = 1 << (12 + (nondet_u8() & 7)); for (int i = 0; i < 3; i++) g_pagesize[i] = ps;
+  VirtMem::Info a = VirtMem::info();
+  VirtMem::Info b = VirtMem::info();
+  V_ASSERT(g_inner_done, "VirtMem::info: detection asked the OS (where the second caller arrives)");
+  V_ASSERT(g_inner_page_size == a.page_size && g_inner_granularity == a.page_granularity && a.page_size == uint32_t(ps), "VirtMem::info: a caller arriving during the first caller's detection gets the completely initialised value");
+  V_ASSERT(b.page_size == a.page_size && b.page_granularity == a.page_granularity, "VirtMem::info: later callers get the same value");
+  V_WITNESS("vm-info-race");
 }
